@@ -278,20 +278,94 @@ def rule_c(ctx, init, tabs):
     ctx.floor(R, 4)
 
 
+def _num_voxels_calls(m, init):
+    """Constructor folded statement-wise on a 2 x 3 patch grid with the coordinate system's own num_voxels folded on every call:
+    [(length term, axis argument, result term)]."""
+    from ..fold import Folder, Obj, Opaque, Raised, Refuse, Sym
+
+    calls = []
+    nvf = m.func("darsia.image.coordinatesystem", "CoordinateSystem.num_voxels")
+    cs = Obj("CS", {"__class__": "CoordinateSystem", "voxel": lambda a, k: Sym("VOX", a, k), "coordinate": lambda a, k: Sym("COORD", a, k), "axes": "xy", "dim": 2, "indexing": "ij",
+                    "voxel_size": {"x": Opaque("f", "hx"), "y": Opaque("f", "hy")}, "shape": (Opaque("int", "N0"), Opaque("int", "N1"))})
+
+    def nv(a, k):
+        length = k.get("length", a[0] if a else None)
+        axis = k.get("axis", a[1] if len(a) > 1 else None)
+        sub = Folder(symbolic=True)
+        sub.func_stack.append(nvf.node)
+        sub.fold_all_methods = True
+        try:
+            r = sub.call(nvf.node, [cs] + list(a), dict(k))
+        except (Refuse, Raised):
+            r = None
+        calls.append((length, axis, r))
+        return r if r is not None else Sym("NV", a, k)
+    cs.fields["num_voxels"] = nv
+    fo = Folder(symbolic=True)
+    fo.func_stack.append(init.node)
+    fo.fold_all_methods = True
+    base = Obj("base", {"space_dim": 2, "time_dim": 0, "dimensions": [Opaque("f", "D0"), Opaque("f", "D1")], "indexing": "ij", "coordinatesystem": cs,
+                        "num_voxels": [Opaque("int", "N0"), Opaque("int", "N1")], "origin": Opaque("coord", "ORIGIN"), "subregion": lambda a, k: Sym("SUB", a, k)})
+    so = Obj("self", {"__class__": "Patches"})
+    p = init.params
+    env = {p[0]: so, p[1]: base, p[2]: [2, 3]}
+    if len(p) > 3:
+        env[p[3]] = {"rel_overlap": Opaque("f", "REL")}
+    for st in init.node.body:
+        try:
+            fo.stmt(st, env)
+        except (Refuse, Raised):
+            continue
+    return calls
+
+
 def rule_d(ctx, init):
     R = "C19.d"
-    ctx.rule(R, "the axis passed to coordinatesystem.num_voxels for matrix axis i is to_cartesian_indexing(i, base.indexing), i.e. the Cartesian "
-             "axis of matrix axis i per the C20 tables")
+    ctx.rule(R, "physical lengths along matrix axis i become voxel counts through the voxel size of the Cartesian axis of i (C20 tables): the "
+             "constructor is folded on a 2 x 3 grid with CoordinateSystem.num_voxels folded on every call; each resulting count must be "
+             "ceil(length / voxel size of 'y') for lengths along matrix axis 0 and of 'x' for matrix axis 1, with no absolute tolerance on the length")
+    import re as _re
+
+    from ..fold import Arr
+    from ..terms import nf
+
     m = ctx.model
-    calls = [c for c in ast.walk(init.node) if isinstance(c, ast.Call) and norm(c.func) == "self.base.coordinatesystem.num_voxels"]
-    env = {norm(s.targets[0]): norm(s.value) for s in ast.walk(init.node) if isinstance(s, ast.Assign) and isinstance(s.targets[0], ast.Name)}
-    for c in calls:
-        ctx.instance(R)
-        kw = {k.arg: norm(k.value) for k in c.keywords}
-        ax = kw.get("axis", "")
-        ln = kw.get("length", "")
-        idx = ln[ln.rfind("[") + 1:-1] if ln.endswith("]") else "?"
-        ctx.ob(R, init.qname, f"num_voxels(length={ln}): axis is the Cartesian axis of matrix axis {idx}", ax == f"darsia.to_cartesian_indexing({idx}, {NAMES['indexing']})" and env.get(NAMES["indexing"]) == "self.base.indexing", ax, c)
+    sem = _num_voxels_calls(m, init)
+    decided, undecided = 0, []
+    for length, axis, res in sem:
+        comps = res.flat() if isinstance(res, Arr) else (list(res) if isinstance(res, (list, tuple)) else [res])
+        lens = length.flat() if isinstance(length, Arr) else (list(length) if isinstance(length, (list, tuple)) else [length])
+        if res is None or len(comps) != len(lens):
+            undecided.append(f"num_voxels({nf(length)[:40]}, {axis!r}) -> {nf(res)[:60]}")
+            continue
+        for ln, rc in zip(lens, comps):
+            tl, tr = nf(ln), nf(rc)
+            which = [i for i in (0, 1) if f"D{i}" in tl]
+            if len(which) != 1:
+                undecided.append(f"length {tl[:40]}")
+                continue
+            i = which[0]
+            want_h, other_h = ("hy", "hx") if i == 0 else ("hx", "hy")
+            ctx.instance(R)
+            if other_h in tr and want_h not in tr:
+                decided += 1
+                ctx.ob(R, init.qname, f"a length along matrix axis {i} ({tl[:40]}) is converted with the voxel size of Cartesian axis {'y' if i == 0 else 'x'!r}", False,
+                       f"the count is {tr[:100]}: the voxel size of the other axis is used -- wrong voxel counts for non-square voxels", init.node, evidence=True)
+            elif tr == f"np.ceil(({tl} / {want_h})).astype(int)" or tr == f"np.ceil({tl} / {want_h}).astype(int)":
+                decided += 1
+                ctx.ob(R, init.qname, f"a length along matrix axis {i} ({tl[:40]}) is converted with the voxel size of Cartesian axis {'y' if i == 0 else 'x'!r}", True, "", init.node)
+            else:
+                lits = [float(x) for x in _re.findall(r"(?<![\w.])(\d+\.?\d*e-\d+|0\.0+\d+)", tr)] + [int(a_) / int(b_) for a_, b_ in _re.findall(r"Fraction\((\d+), (\d+)\)", tr)]
+                if want_h in tr and any(0 < v < 1e-3 for v in lits):
+                    decided += 1
+                    ctx.ob(R, init.qname, f"a length along matrix axis {i} ({tl[:40]}) is converted to ceil(length / voxel size) without an absolute tolerance", False,
+                           f"the count is {tr[:110]}: a fixed small length is taken off before the division -- for voxels of that size (micrometre scale) a patch loses a voxel and the "
+                           "last rows / columns of the image belong to no patch", init.node, evidence=True)
+                else:
+                    undecided.append(f"count {tr[:80]}")
+    if undecided and not any(not o.ok for o in ctx.obs if o.rule == R):
+        ctx.ob(R, init.qname, "every length is converted to voxels along the Cartesian axis of its matrix axis", False, "conversion not found in a comparable form: " + "; ".join(undecided[:2]), init.node)
+    ctx.instance(R, 0)
     ctx.floor(R, 2)
 
 
